@@ -12,7 +12,7 @@ use std::rc::Rc;
 
 pub const META: Meta = Meta {
     level: "model_checking",
-    rule: "all (dialer list of 1-2, listener list of 0-2 names over {/a,/b,/c}, V1|V1Lazy) pairs; per pair every execution with <= bound deviations (1-byte reads, 1-byte writes, injected Pending on read/write/flush, non-round-robin task choice) of dialer_select_proto || listener_select_proto over an in-memory pipe followed by an application phase (3-byte tag each way, flush, read, close). Non-trivial = executions with >=1 deviation, distinct by (config, choice sequence).",
+    rule: "all (dialer list of 1-2, listener list of 0-2 names over {/a,/b,/c}, V1|V1Lazy, application writes plain|vectored) configurations; per pair every execution with <= bound deviations (1-byte reads, 1-byte writes, injected Pending on read/write/flush, non-round-robin task choice) of dialer_select_proto || listener_select_proto over an in-memory pipe followed by an application phase (3-byte tag each way, flush, read, close). Non-trivial = executions with >=1 deviation, distinct by (config, choice sequence).",
     explanation: "E1 stateless DFS with deviation bound (CHESS-style); every execution runs the real futures; oracle: both Ok on the first dialer protocol the listener has or both Err(Failed); lazy dialer learns failure on its first read; tags arrive intact.",
     assumptions: &["poll-granularity interleaving on one thread", "names contain no newline (hostile names are C15)"],
 };
@@ -34,7 +34,26 @@ fn version(v: u8) -> Version {
     if v == 0 { Version::V1 } else { Version::V1Lazy }
 }
 
-fn one(dl: &[&'static str], ll: &[&'static str], ver: u8, pcfg: PipeCfg, sched: bool) -> Result<(), String> {
+/// write the tag either with plain writes or — `vectored` — through `poll_write_vectored`
+/// (two slices), which `Negotiated` / the length-delimited layer implement separately
+async fn write_tag<W: futures::AsyncWrite + Unpin>(io: &mut W, tag: &[u8; 3], vectored: bool) -> std::io::Result<()> {
+    if !vectored {
+        return io.write_all(tag).await;
+    }
+    let mut off = 0usize;
+    while off < tag.len() {
+        let rest = &tag[off..];
+        let (a, b) = rest.split_at(rest.len().min(1));
+        let n = io.write_vectored(&[std::io::IoSlice::new(a), std::io::IoSlice::new(b)]).await?;
+        if n == 0 {
+            return Err(std::io::ErrorKind::WriteZero.into());
+        }
+        off += n;
+    }
+    Ok(())
+}
+
+fn one(dl: &[&'static str], ll: &[&'static str], ver: u8, vectored: bool, pcfg: PipeCfg, sched: bool) -> Result<(), String> {
     let (a, b) = pipe::pair(pcfg);
     let d = Rc::new(RefCell::new(Side::default()));
     let l = Rc::new(RefCell::new(Side::default()));
@@ -47,7 +66,7 @@ fn one(dl: &[&'static str], ll: &[&'static str], ver: u8, pcfg: PipeCfg, sched: 
                 Ok((p, mut io)) => {
                     d.borrow_mut().proto = Some(p.to_string());
                     let w = async {
-                        io.write_all(&DTAG).await?;
+                        write_tag(&mut io, &DTAG, vectored).await?;
                         io.flush().await
                     }
                     .await;
@@ -79,7 +98,7 @@ fn one(dl: &[&'static str], ll: &[&'static str], ver: u8, pcfg: PipeCfg, sched: 
                 Ok((p, mut io)) => {
                     l.borrow_mut().proto = Some(p.to_string());
                     let w = async {
-                        io.write_all(&LTAG).await?;
+                        write_tag(&mut io, &LTAG, vectored).await?;
                         io.flush().await
                     }
                     .await;
@@ -168,9 +187,10 @@ fn body(cfg: &Value) -> impl FnMut(&mut Chooser) -> Result<(), String> {
     let dl: Vec<&'static str> = cfg["d"].as_array().unwrap().iter().map(|s| NAMES[NAMES.iter().position(|n| Some(*n) == s.as_str()).unwrap()]).collect();
     let ll: Vec<&'static str> = cfg["l"].as_array().unwrap().iter().map(|s| NAMES[NAMES.iter().position(|n| Some(*n) == s.as_str()).unwrap()]).collect();
     let ver = cfg["v"].as_u64().unwrap() as u8;
+    let vectored = cfg["w"].as_u64().unwrap_or(0) == 1;
     move |ch: &mut Chooser| {
         let (dl, ll) = (dl.clone(), ll.clone());
-        choice::scoped(ch, move || mc::catch(|| one(&dl, &ll, ver, PipeCfg::adversarial(), true)).unwrap_or_else(|p| Err(format!("panic :: {p}"))))
+        choice::scoped(ch, move || mc::catch(|| one(&dl, &ll, ver, vectored, PipeCfg::adversarial(), true)).unwrap_or_else(|p| Err(format!("panic :: {p}"))))
     }
 }
 
@@ -189,7 +209,9 @@ pub fn run(ctx: &Ctx) -> Outcome {
     for d in lists(1, 2) {
         for l in lists(0, 2) {
             for v in 0..2u8 {
-                cfgs.push(json!({"d": d, "l": l, "v": v}));
+                for w in 0..2u8 {
+                    cfgs.push(json!({"d": d, "l": l, "v": v, "w": w}));
+                }
             }
         }
     }
